@@ -10,12 +10,21 @@ Range(f) == {f[i] : i \in DOMAIN f}
 StrictPrefix(p, q) == Len(p) < Len(q) /\ SubSeq(q, 1, Len(p)) = p
 Present(tree) == {tree[i].p : i \in {j \in DOMAIN tree : tree[j].k # "none"}}
 Bad(e) ==
-  (IF e.c = "panic" THEN {"nopanic"} ELSE {})
-  \cup (IF e.c = "ok" /\ e.ended /\ e.errs = 0 THEN {} ELSE {"terminates"})
-  \cup (IF Range(e.items) = Present(e.tree) THEN {} ELSE {"complete"})
-  \cup (IF Len(e.items) = Cardinality(Range(e.items)) THEN {} ELSE {"nodup"})
-  \cup (IF \A i, j \in DOMAIN e.items : i < j => ~StrictPrefix(e.items[j], e.items[i]) THEN {} ELSE {"parentsfirst"})
-  \cup (IF Range(e.items) = Range(e.ref) THEN {} ELSE {"same_as_unpended"})
+  IF e.fault = 0 THEN
+    (IF e.c = "panic" THEN {"nopanic"} ELSE {})
+    \cup (IF e.c = "ok" /\ e.ended /\ e.errs = 0 THEN {} ELSE {"terminates"})
+    \cup (IF Range(e.items) = Present(e.tree) THEN {} ELSE {"complete"})
+    \cup (IF Len(e.items) = Cardinality(Range(e.items)) THEN {} ELSE {"nodup"})
+    \cup (IF \A i, j \in DOMAIN e.items : i < j => ~StrictPrefix(e.items[j], e.items[i]) THEN {} ELSE {"parentsfirst"})
+    \cup (IF Range(e.items) = Range(e.ref) THEN {} ELSE {"same_as_unpended"})
+  ELSE
+    \* one metadata call of the walk failed: an Err item is yielded, nothing panics, the stream still ends,
+    \* and what is yielded is still duplicate-free, in order, and part of the tree
+    (IF e.c = "panic" THEN {"nopanic"} ELSE {})
+    \cup (IF e.c = "ok" /\ e.ended /\ e.errs >= 1 THEN {} ELSE {"fault_terminates"})
+    \cup (IF Range(e.items) \subseteq Present(e.tree) THEN {} ELSE {"complete"})
+    \cup (IF Len(e.items) = Cardinality(Range(e.items)) THEN {} ELSE {"nodup"})
+    \cup (IF \A i, j \in DOMAIN e.items : i < j => ~StrictPrefix(e.items[j], e.items[i]) THEN {} ELSE {"parentsfirst"})
 Next ==
   /\ l <= Len(Rec)
   /\ LET e == Rec[l]  bad == Bad(e) IN
